@@ -11,6 +11,6 @@ for f in os.listdir(src):
     shutil.copy(os.path.join(src, f), os.path.join(dst, f))
 m['caught_by_check'] = caught
 m['detail'] = detail
-m['round'] = 5
+m['round'] = int(os.environ.get('SEED_ROUND', '6'))
 json.dump(m, open(os.path.join(dst, 'meta.json'), 'w'), indent=1)
 print(dst)
